@@ -448,7 +448,21 @@ def product_order_rule(chk, src):
                [".".join(w) + ("" if not fc else "*" + "*".join(fc)) for w, fc in want], line=f["Op.__mul__"].node.lineno,
                detail=f"{name}: the result must contain every term of the mathematical expression exactly once, with operands of a product in the written order (a reversed pair is a "
                       "different operator when the factors share a degree of freedom and do not commute) and with the written sign / scalar factor")
-
+    # ---- a sum / difference / product is a new object, also when one operand contributes nothing: the result is routinely extended in place (`total += term`)
+    fresh = [("OpSum + []", lambda s_: s_ + []), ("OpSum + OpSum()", lambda s_: s_ + Sum([])), ("OpSum - OpSum()", lambda s_: s_ - Sum([])), ("OpSum + Op", lambda s_: s_ + c),
+             ("OpSum * scalar", lambda s_: s_ * k), ("-OpSum", lambda s_: -s_)]
+    for name, op_ in fresh:
+        s0 = Sum([a, b])
+        try:
+            r = op_(s0)
+            err = None
+        except AnalysisError:
+            raise
+        except Exception as e:
+            r, err = None, f"{type(e).__name__}: {e}"
+        ok = err is None and isinstance(r, list) and r is not s0 and words(s0) == sorted([(("a",), ()), (("b",), ())])
+        chk.ob("operand-order", f"{name}: the result is a new object, the left operand keeps its terms", ok, f["OpSum.__add__"].where, err or ("the left operand itself" if r is s0 else "a new object"), "a new object",
+               line=f["OpSum.__add__"].node.lineno, detail=f"{name} hands back its left operand: extending the result in place (`total += term`) then also changes the operand, which afterwards denotes a different operator")
 
 
 def term_validation_rule(chk, src):
@@ -465,7 +479,9 @@ def term_validation_rule(chk, src):
 
     def mk(name, dofs, factor):
         return OpV(name, dofs=list(dofs), factor=factor)
-    a, b, c, z = mk("a", ["x"], Sym("fa")), mk("b", ["x", "y"], Sym("fb")), mk("c", ["y"], Sym("fc")), mk("z", ["x"], 0)
+    from fractions import Fraction as _Fr
+    # factors of ordinary size, far below any tolerance (a Hamiltonian in small units), and exactly zero
+    a, b, c, z = mk("a", ["x"], 2), mk("b", ["x", "y"], _Fr(1, 10 ** 20)), mk("c", ["y"], -3.5e-17j), mk("z", ["x"], 0)
     outs = []
     for verdict in (True, False):
         it = SymInterp(src, None, {"Op": "Op", "OpSum": "OpSum", "np": OpenSym("np", isclose=lambda *x, **k: verdict, allclose=lambda *x, **k: verdict)})
